@@ -52,7 +52,7 @@ def _probe_c13(res, reach):
 def judge_c13(case):
     res, reach, refs = _base(case)
     _probe_c13(res, reach)
-    findings = judge_history("C13", case, res, reach, refs)
+    findings = judge_history("C13", case, res, reach, refs, skip_planned=True)
     return _done(case, res, reach, refs, findings)
 
 
